@@ -20,7 +20,10 @@ ASSUMPTIONS = [
     "for a convolution point in [1-1e-9,1] the documented 'empty domain' convention (exact zeros) is monitored instead of the delta term",
     "the coefficient functions (RSL objects) are taken from the code: whether they are the right physics is C02-C04/C08",
 ]
-RTOL = {0: 1e-12, 1: 1e-7, 2: 1e-5, 3: 3e-4}
+# NLO: scipy.quad's nominal epsrel is 1.5e-8, but QUADPACK accepts a panel on a heuristic error estimate that is optimistic next to
+# square-root / ln(1-z) end points (massive threshold, z -> 1): measured excursions of 2.7e-7 (heavy NC gluon, 3e-10 reported) and
+# 1.4e-6 (two-loop product kernel, C05) against brute-force quadrature, once in several thousand runs
+RTOL = {0: 1e-12, 1: 1e-6, 2: 1e-5, 3: 3e-4}
 HEAVY = {"charm": 4, "bottom": 5, "top": 6}
 
 
